@@ -15,6 +15,9 @@
 //!   {"kind":"arb","old":[..],"ctrl":[[x,y,z]..],"diff":[..],"extra":[..],"size":n}
 //!                                                       an arbitrary patch, assembled by this driver's own
 //!                                                       encoder (sign-magnitude control, zlib stored blocks)
+//!   {"kind":"fixture","dir":d,"name":n}                 a real CDN triplet d/n.old, d/n.new, d/n.zbsdiff (made by
+//!                                                       Blizzard's encoder): the patch is dissected and applied
+//!                                                       like a generated one (validates the format definition)
 //!
 //! For every pair the three builders x max_diff_block_size values are run; each produced patch is taken apart by
 //! an independent reader (own header split, own inflate - not the library's parser) and applied with
@@ -615,6 +618,24 @@ fn struct_pair(prog: &Value) -> (Vec<u8>, Vec<u8>) {
     }
 }
 
+fn run_fixture(prog: &Value, em: &Emit) {
+    let dir = std::path::Path::new(prog["dir"].as_str().expect("dir"));
+    let name = prog["name"].as_str().expect("name");
+    let rd = |ext: &str| std::fs::read(dir.join(format!("{name}.{ext}"))).unwrap_or_else(|e| panic!("driver: fixture {name}.{ext}: {e}"));
+    let (old, new, patch) = (rd("old"), rd("new"), rd("zbsdiff"));
+    em.ev(json!({"op": "new", "kind": "fixture", "tier": "short", "prog": prog, "oldlen": old.len(), "newlen": new.len(),
+                 "newmd5": md5hex(&new), "old": old, "new": new}));
+    em.begin(prog);
+    let mut ev = dissect(&patch, false);
+    ev["res"] = json!({"ok": true});
+    ev["outs"] = outs_json(&apply_all(&old, &patch, &[1024, 8192]), false);
+    ev["op"] = json!("patch");
+    ev["seq"] = json!(1);
+    ev["cfgs"] = json!([["foreign", 0]]);
+    em.ev(ev);
+    em.ev(json!({"op": "end", "n": 1}));
+}
+
 fn run_program(prog: &Value, em: &Emit, alphabets: &[(u8, u8)]) {
     match prog["kind"].as_str().expect("kind") {
         "ab" => {
@@ -644,6 +665,7 @@ fn run_program(prog: &Value, em: &Emit, alphabets: &[(u8, u8)]) {
             run_pair("struct", prog, &old, &new, false, em);
         }
         "arb" => run_arb(prog, em),
+        "fixture" => run_fixture(prog, em),
         k => panic!("driver: unknown program kind {k}"),
     }
 }
